@@ -345,3 +345,22 @@ def flat(node):
     from .pm import NormText
 
     return NormText(" ".join(unparse(node).split()), node if isinstance(node, ast.AST) else None)
+
+
+def stable(node, limit=70):
+    """Text of a node for use in instance keys: function locals are replaced by v0, v1, ... in order of appearance, so
+    that the key of a construct (and with it a known finding) survives the renaming of a local variable."""
+    import copy
+
+    from . import pm
+
+    try:
+        locs, _ = pm.scope_info(node)
+    except Exception:
+        locs = set()
+    names = {}
+    c = copy.deepcopy(node)
+    for n in ast.walk(c):
+        if isinstance(n, ast.Name) and n.id in locs:
+            n.id = names.setdefault(n.id, f"v{len(names)}")
+    return " ".join(unparse(c).split())[:limit]
